@@ -13,7 +13,7 @@ use std::task::Poll;
 pub static CLOCK: AtomicU64 = AtomicU64::new(1);
 #[inline] pub fn stamp() -> u64 { CLOCK.fetch_add(1, SeqCst) }
 
-#[derive(Clone, Copy, PartialEq, Eq, Debug)]
+#[derive(Clone, Copy, PartialEq, Eq, Debug, Hash)]
 pub enum Entry { Send, SendWith, SendAsync, SendAsyncSuspended, Reserve, Derived }
 impl Entry {
     pub fn name(&self) -> &'static str {
